@@ -58,7 +58,7 @@ AuxInit == [rem      |-> [d \in Devs |-> 0],          \* C06: operational time s
             join     |-> <<>>,                        \* C17: routing history of each part when it joined its batch
             inSeq    |-> [d \in Devs |-> <<>>],       \* C17: leaf parts in arrival order
             outSeq   |-> [d \in Devs |-> <<>>],       \* C17: leaf parts in leaving order
-            wo       |-> [d \in Devs |-> <<>>],       \* C13: <<start, duration>> of the work order in progress on d
+            wo       |-> [d \in Devs |-> <<>>],       \* C13: <<start, duration, overridden by hand>> of the work order in progress on d
             everDown |-> [d \in Devs |-> FALSE],      \* C13: the processor has been down at some time
             disp     |-> <<>>,                        \* C15: dispatched events <<time, device, kind, priority>>
             runEnd   |-> None,                        \* C01: end of the current run
@@ -125,8 +125,10 @@ AuxNext(aux, pre, ev, post) ==
      outSeq |-> [d \in Devs |-> IF Kind(d) = "batcher" /\ pre.dev[d].out # 0 /\ post.dev[d].out # pre.dev[d].out
                                 THEN aux.outSeq[d] \o LeavesOf(pre, pre.dev[d].out) ELSE aux.outSeq[d]],
      wo |-> [d \in Devs |-> IF IsStep(ev) /\ ~ev.cancelled /\ ev.kind = "mstart" /\ ev.arg \div 10 = d
-                             THEN <<post.now, cfg.devs[d].wodur>>
+                             THEN <<post.now, cfg.devs[d].wodur, FALSE>>
                              ELSE IF IsStep(ev) /\ ~ev.cancelled /\ ev.kind = "mfinish" /\ ev.arg \div 10 = d THEN <<>>
+                             \* restore_functionality called by hand during the order overrides it (third field)
+                             ELSE IF aux.wo[d] # <<>> /\ ScriptOn(ev, "restore", d) THEN <<aux.wo[d][1], aux.wo[d][2], TRUE>>
                              ELSE aux.wo[d]],
      everDown |-> [d \in Devs |-> aux.everDown[d] \/ (d \in Procs /\ post.dev[d].down)],
      disp |-> IF cfg.trace /\ IsStep(ev) /\ ~ev.direct THEN Append(aux.disp, <<ev.time, ev.asset, ev.kind, ev.prio>>) ELSE aux.disp,
@@ -223,7 +225,7 @@ C04(pre, ev, post, aux) ==
          \cup C("C04.NothingLateAtEndOfRun",
                 ev.op = "run_end" =>
                    \A d \in 2..N : LET k == Len(a1.arr[d]) + 1 IN
-                        (RefDefined(a1.arr, d, k) /\ WithinBudget(k)) => RefArrival(a1.arr, d, k) > post.now)
+                        (RefDefined(a1.arr, d, k) /\ WithinBudget(k)) => RefArrival(a1.arr, d, k) > ev.t0 + ev.d)   \* the requested end
          \cup C("C04.SinkCountIsReference", post.dev[N].count = Len(a1.arr[N]))
 
 (***************************************************************************)
@@ -337,7 +339,7 @@ C13d(pre, ev, post, aux) ==
            \A d \in Procs :
               /\ (ScriptOn(ev, "shutdown", d) /\ pre.dev[d].down) => Untimed(post.dev[d]) = Untimed(pre.dev[d])
               /\ (ScriptOn(ev, "restore", d) /\ ~pre.dev[d].down) => Untimed(post.dev[d]) = Untimed(pre.dev[d]))
-    \cup C("C13.WorkOrderKeepsTargetDown", \A d \in Procs : a1.wo[d] # <<>> => post.dev[d].down)
+    \cup C("C13.WorkOrderKeepsTargetDown", \A d \in Procs : (a1.wo[d] # <<>> /\ ~a1.wo[d][3]) => post.dev[d].down)
     \cup C("C13.WorkOrderLastsExactlyItsDuration",
            \A d \in Procs : (IsStep(ev) /\ ~ev.cancelled /\ ev.kind = "mfinish" /\ ev.arg \div 10 = d) =>
                 /\ aux.wo[d] # <<>> /\ post.now = aux.wo[d][1] + aux.wo[d][2]
